@@ -52,7 +52,7 @@ parselocalpart(const char *const addr)
 		} else {
 			/* check for everything outside range of allowed characters in quoted string
 			 * (the upper bound is needed where char is unsigned) */
-			if (!(((*t >= 35) && (*t <= 91)) || ((*t >= 93) && ((unsigned char)*t <= 127)) || ((*t >= 1) && (*t <= 8)) || (*t == 11) ||
+			if (!((*t == 33) || ((*t >= 35) && (*t <= 91)) || ((*t >= 93) && ((unsigned char)*t <= 127)) || ((*t >= 1) && (*t <= 8)) || (*t == 11) ||
 						(*t == 12) || ((*t >= 14) && (*t <= 31)))) {
 				if (*t == '\\') {
 					/* '\\' may mask only '"' or '\\'. Skip this second character, else error */
